@@ -69,20 +69,21 @@ func VerifC05_Ids() {
 }
 
 var VerifEntries = map[string]func(){
-	"VerifC05_Ids":            VerifC05_Ids,
-	"VerifC06_Rekey": VerifC06_Rekey,
-	"VerifC06_Signatures":     VerifC06_Signatures,
-	"VerifC14_Assign":         VerifC14_Assign,
-	"VerifC14_Relay":          VerifC14_Relay,
-	"VerifC14_Fees":           VerifC14_Fees,
-	"VerifC09_ConsensusFees":  VerifC09_ConsensusFees,
-	"VerifC09_Blocks":         VerifC09_Blocks,
-	"VerifC17_Jobs":           VerifC17_Jobs,
-	"VerifC03_Treasury":       VerifC03_Treasury,
-	"VerifC03_ValidatorKeyed": VerifC03_ValidatorKeyed,
-	"VerifC03_UserOwned": VerifC03_UserOwned,
-	"VerifC13_Prune": VerifC13_Prune,
-	"VerifC08_Twin": VerifC08_Twin,
-	"VerifC07_Attest": VerifC07_Attest,
-	"VerifC07_SingleUse": VerifC07_SingleUse,
+	"VerifC05_Ids":             VerifC05_Ids,
+	"VerifC06_Rekey":           VerifC06_Rekey,
+	"VerifC06_Signatures":      VerifC06_Signatures,
+	"VerifC06_SignaturesThree": VerifC06_SignaturesThree,
+	"VerifC14_Assign":          VerifC14_Assign,
+	"VerifC14_Relay":           VerifC14_Relay,
+	"VerifC14_Fees":            VerifC14_Fees,
+	"VerifC09_ConsensusFees":   VerifC09_ConsensusFees,
+	"VerifC09_Blocks":          VerifC09_Blocks,
+	"VerifC17_Jobs":            VerifC17_Jobs,
+	"VerifC03_Treasury":        VerifC03_Treasury,
+	"VerifC03_ValidatorKeyed":  VerifC03_ValidatorKeyed,
+	"VerifC03_UserOwned":       VerifC03_UserOwned,
+	"VerifC13_Prune":           VerifC13_Prune,
+	"VerifC08_Twin":            VerifC08_Twin,
+	"VerifC07_Attest":          VerifC07_Attest,
+	"VerifC07_SingleUse":       VerifC07_SingleUse,
 }
